@@ -16,7 +16,7 @@ theorem step_no_panic (st : State) (s : Stmt) (hi : Inv st) : step st s ≠ .err
   cases s with
   | addr a => exact changeSeg_no_panic st a hi.1
   | align n =>
-    unfold step
+    rw [step_align]
     cases hact : st.active with
     | none => simp
     | some s =>
@@ -75,7 +75,7 @@ theorem step_inv (st st' : State) (s : Stmt) (hi : Inv st) (hwf : s.wf = true) (
     obtain ⟨k1, _, k3, _, k5, _⟩ := changeSeg_ok st st' a hi.1 h
     exact ⟨k1, fun t ht => k5 t (hi.2 t (by rwa [k3] at ht))⟩
   | align n =>
-    unfold step at h
+    rw [step_align] at h
     cases hact : st.active with
     | none => rw [hact] at h; cases h
     | some s =>
